@@ -193,13 +193,20 @@ PROPERTIES = {
                       "lo, hi); WorkLoad by functional-definition consistency (in each of the order types exactly one consistent "
                       "definition of the overlap variable, equal to max(0, min(end,hi)-max(start,lo))) plus the kind dispatch; "
                       "distance / non-delay by canonical atoms over sorted copies; Same/DistinctWorkers by truth tables; plus "
-                      "attribute resolution, cumulative fan-out, escaped loop variables and the structure of the periodic "
-                      "encodings.",
-        "level_note": "NOT decided: the modular arithmetic of ResourcePeriodicallyUnavailable / ResourcePeriodicallyInterrupted "
-                      "(only fan-out, parameters used, activity mask, rejection of unassigned resources). Assumes lo <= hi for "
-                      "every interval. Trusted: z3, the sorted-copy helper (checked under C09).",
+                      "attribute resolution, cumulative fan-out, escaped loop variables, rejection tests that read a cumulative "
+                      "resource's own busy dict, and the periodic encodings: fan-out, parameters, activity mask, and the "
+                      "folded conditions themselves - with f = (busy start - offset) % period taken as an integer in "
+                      "[0, period), 'the folded busy interval meets no repetition of the interval' is f + d <= lo or "
+                      "(f >= hi and f + d <= lo + period), and 'a folded start / end of an interruptible task is not strictly "
+                      "inside the interval' - decided by linear integer arithmetic (truth table over the atoms, every "
+                      "distinguishing assignment refuted by Fourier-Motzkin elimination or turned into integer values).",
+        "level_note": "NOT decided: the lengthening of interruptible tasks under ResourcePeriodicallyInterrupted (number of "
+                      "crossed repetitions: duration / period and duration % period are non linear in the symbolic period). "
+                      "Assumes 0 <= lo < hi <= period for periodic intervals and lo <= hi for the others. Trusted: z3's "
+                      "integer mod, the sorted-copy helper (checked under C09).",
         "explanation": "Static analysis of resource_constraint.py on the extracted IR with order-type enumeration, "
-                       "functional-definition consistency, canonical atoms and truth tables; whole-program attribute "
+                       "functional-definition consistency, canonical atoms, truth tables and a small linear-integer-arithmetic "
+                       "procedure (Fourier-Motzkin) written for this checker; whole-program attribute "
                        "resolution and union-exhaustiveness over the class table.",
     },
     "C02": {
